@@ -51,6 +51,25 @@ Proof.
   repeat (destruct Ht as [<-|Ht]; [unfold trow, tcol; cbn [fst snd]; lia|]). destruct Ht.
 Qed.
 
+(* a duplicate-free storage (the 3x4 example of Props/C06.v, C07.v) for the corollaries under NoDupKeys *)
+Definition nd_s : sparse AQ :=
+  @mkS AQ 3 4 4 [q 2 1; q (-1) 2; q 7 1; q 5 3] [2; 0; 1; 2] [0; 0; 2; 3; 4].
+
+Example nd_s_wf : wfS nd_s.
+Proof.
+  unfold wfS, nd_s; cbn [sp_rows sp_cols sp_nonzero sp_val sp_row_index sp_col_start length nth Nat.add].
+  repeat split; try reflexivity.
+  - intros j Hj. do 4 (destruct j as [|j]; [cbn [nth Nat.add]; lia|]). lia.
+  - intros k Hk. do 4 (destruct k as [|k]; [cbn [nth]; lia|]). lia.
+Qed.
+
+Example nd_s_nodup : NoDupKeys nd_s.
+Proof.
+  unfold NoDupKeys, ents, visits, seg, ent, nd_s, trow, tcol.
+  cbn [sp_rows sp_cols sp_nonzero sp_val sp_row_index sp_col_start seq flat_map map nth Nat.add Nat.sub app fst snd].
+  repeat constructor; cbn [In]; intros H; repeat (destruct H as [H|H]; [discriminate H|]); destruct H.
+Qed.
+
 (* ---- 1. the three views of the tripled position ---- *)
 Example dup_dvals : fl_list flat_q (dvals dup_s 1 1) = [0; 3;  2; 2; 1;  2; 30; 1;  2; 500; 1]%Z      (* [2; 30; 500] *)
   /\ fl_list flat_q (dvals dup_s 0 1) = [0; 1;  2; 7; 1]%Z /\ fl_list flat_q (dvals dup_s 1 0) = [0; 0]%Z.
